@@ -342,6 +342,52 @@ def rules(rep, m):
         r4.ok()
 
 
+    # R-C06-7 ------------------------------------------------------------
+    r7 = rep.rule("R-C06-7", "one change of availability is offered to the waiting list once: no function of the guard-based "
+                  "classes signals a guard repeatedly in a loop that neither leaves after the signal nor blocks in between - every "
+                  "signal takes the first waiter off the list, and a waiter that was woken for units someone ahead of it took "
+                  "re-enters with a new waiting time, behind later arrivals of its priority", floor=8)
+    n_sig = 0
+    for f_ in sorted(m.funcs.values(), key=lambda g_: g_.name):
+        rel_ = m.rel(f_.file) or ""
+        if not rel_.startswith("src/cmb_") or rel_.endswith("cmb_resourceguard.c") or f_.body is None:
+            continue
+        fx_ = None
+        for c_ in walk(f_.body):
+            if c_["kind"] != "CallExpr" or callee_ref(c_) != "cmb_resourceguard_signal":
+                continue
+            n_sig += 1
+            chain_ = inv.enclosing_chain(f_, c_)
+            loops_ = [a_ for a_ in chain_ if a_["kind"] in ("ForStmt", "WhileStmt", "DoStmt") and
+                      not (a_["kind"] == "DoStmt" and int_value(kids(a_)[1]) == 0)]
+            if not loops_:
+                r7.ok()
+                continue
+            # inside a loop: the path after the signal must leave the loop without coming round again
+            lp_ = loops_[-1]
+            leaves = False
+            for blk_ in reversed([a_ for a_ in chain_[chain_.index(lp_) + 1:] if a_["kind"] == "CompoundStmt"]):
+                if inv._ends_in_exit(blk_) and kids(blk_)[-1]["kind"] in ("ReturnStmt", "BreakStmt", "CompoundStmt", "IfStmt") and \
+                        not any(y["kind"] == "ContinueStmt" for y in walk(blk_)):
+                    leaves = True
+            if not leaves:
+                # a round that blocks in between is a new instant with a new change of availability
+                may_y = m.reaches({"cmi_coroutine_transfer"})
+                for y_ in walk(lp_):
+                    if y_["kind"] == "CallExpr" and callee_ref(y_) and m.resolve(f_.unit, callee_ref(y_)) in may_y:
+                        leaves = True
+            r7.instance("%s: signal inside a loop, followed by leaving it or by a suspension: %s" % (f_.name, leaves))
+            if leaves:
+                r7.ok()
+            else:
+                rep.finding(r7, f_.name, "signal:repeated", "%s signals a guard inside a loop that goes round again: each round takes "
+                            "another waiter off the waiting list although the first one may use up everything that became "
+                            "available; the others find nothing, wait again with a new waiting time and lose their place"
+                            % f_.name, where=m.rel(loc(c_)))
+                r7.fail()
+    if n_sig < 8:
+        raise AnalysisBroken("R-C06-7: only %d guard signals found" % n_sig)
+
     # R-C06-6 ------------------------------------------------------------
     r6 = rep.rule("R-C06-6", "a priority change repositions the waiter in every situation: the routine behind it "
                   "(cmi_hashheap_reprioritize) sifts the re-keyed entry up whenever it now sorts before its parent and down "
